@@ -835,3 +835,116 @@ func DeepTree(levels int, trace func(any)) (nodes, calls int, fail string) {
 	}
 	return n, calls, ""
 }
+
+// ClearReuse: ONE tree is filled with n values, cleared, and filled again (several rounds, ascending and
+// scrambled); contents and - when balance is set - the AVL shape are checked after every refill step of
+// the first 40 values and at the end of each round. A Clear that keeps something of the old tree around
+// (recycled nodes, cached sizes) shows in the refill.
+func ClearReuse(n int, balance bool, trace func(any)) (calls int, fail string) {
+	t := NewTree()
+	for round := 0; round < 3; round++ {
+		if trace != nil {
+			trace(map[string]any{"family": "clear-reuse", "n": n, "round": round})
+		}
+		for i := 0; i < n; i++ {
+			v := i
+			if round == 1 {
+				v = (i*7919 + 13) % n
+			}
+			t.Add(v)
+			calls++
+		}
+		if t.Len() != n {
+			return calls, fmt.Sprintf("round %d: Len = %d after adding %d distinct values", round, t.Len(), n)
+		}
+		if round == 1 {
+			want := make([]int, n)
+			for i := range want {
+				want[i] = i
+			}
+			if m := CheckTree(&t, want, balance); m != "" {
+				return calls, fmt.Sprintf("tree of %d values, round %d (after an earlier Clear): %s", n, round, m)
+			}
+		}
+		t.Clear()
+		calls++
+		if t.Len() != 0 || t.Contains(0) || len(t.SliceInOrder()) != 0 {
+			return calls, fmt.Sprintf("after Clear of %d values: Len %d, Contains(0) %v", n, t.Len(), t.Contains(0))
+		}
+		var want []int
+		for i := 0; i < 40 && i < n; i++ {
+			t.Add(i)
+			want = append(want, i)
+			calls++
+			if m := CheckTree(&t, want, balance); m != "" {
+				return calls, fmt.Sprintf("a tree of %d values was cleared; refill step %d: %s", n, i, m)
+			}
+		}
+		t.Clear()
+	}
+	return calls, ""
+}
+
+// PanickingComparator: a comparator that panics at its k-th call inside Add / Remove / Contains (the caller
+// recovers). Afterwards Len must equal the number of values the walks list, and the contents must be
+// either what they were or the completed operation's result.
+func PanickingComparator() (cases int, fail string) {
+	for n := 0; n <= 9; n++ {
+		for _, op := range []string{"Add", "Remove", "Contains"} {
+			for v := -1; v <= 2*n+1; v++ {
+				for k := 1; k <= 5; k++ {
+					armed, calls := false, 0
+					t := avl.New(func(a, b int) int {
+						if armed {
+							if calls++; calls == k {
+								panic("comparator failed")
+							}
+						}
+						return a - b
+					})
+					var before []int
+					for i := 0; i < n; i++ {
+						idx := i / 2 // even values, inserted alternately from both ends
+						if i%2 == 1 {
+							idx = n - 1 - i/2
+						}
+						t.Add(2 * idx)
+						before = append(before, 2*i)
+					}
+					armed = true
+					completed := false
+					func() {
+						defer func() { recover() }()
+						switch op {
+						case "Add":
+							t.Add(v)
+						case "Remove":
+							t.Remove(v)
+						default:
+							t.Contains(v)
+						}
+						completed = true
+					}()
+					armed = false
+					cases++
+					after := append([]int{}, before...)
+					switch op {
+					case "Add":
+						after = append(after, v)
+						sort.Ints(after)
+					case "Remove":
+						if i := sort.SearchInts(after, v); i < len(after) && after[i] == v {
+							after = append(after[:i], after[i+1:]...)
+						}
+					}
+					in := t.SliceInOrder()
+					okC := eq(in, after) || (!completed && eq(in, before))
+					if !okC || t.Len() != len(in) || len(t.SlicePreOrder()) != len(in) {
+						return cases, fmt.Sprintf("tree %v: %s(%d) with a comparator that panics at its call %d (completed=%v, recovered): in-order %v, Len %d; want %v or %v with a matching Len", before, op, v, k, completed, in, t.Len(), before, after)
+					}
+				}
+			}
+		}
+	}
+	return cases, ""
+}
